@@ -250,6 +250,22 @@ PROPS["C17"] = dict(
     jobs=[job("render-exhaustive", "^TestRenderExhaustive$", (1, 1), (1, 1), (900, 3000)),
           job("generated", "^Test(RenderRandom|ParsePositions|ValidationPositions)$", (3, 16), (3000, 30000), (900, 3000))],
 )
+PROPS["C07"] = dict(
+    pkg="c07", level="exploration", exhaustive_claim=False,
+    technique="robustness property testing with a validity predicate on every return value: grammar-aware and byte-level mutation and every truncation of generated valid inputs in every role through every public entry point; native fuzz targets; finite enumeration of error codes x arities and of error construction sites (go/ast)",
+    level_text=("For mutated / truncated byte strings used as schema, added type, enum rule, regex type and document, every public method is called in API-legal order: none may panic or hang, every "
+                "non-nil error must be a ParsingError or ValidationError whose position lies inside the source named by Filename(), and Error()/String()/Line()/SourceSubString()/kit.ConvertError must not panic. "
+                "The static-table clause is decided by enumerating every ErrorCode x 0..5 arguments and every errors.Format / bare-code construction site of the current tree (a finite syntactic domain, "
+                "listed rather than generated - see DESIGN section 5 C07)."),
+    level_note="trusted: the harness's recover wrappers; a 60 s per-session watchdog only turns a hang into a recorded case; bare codes are judged at panic/return/New*Error sites only (others are not classified)",
+    rule=("sessions: a generated valid case (type graphs, ruled trees, reference graphs, repository testdata schemas; optional enum rule and regex type) with one role mutated (grammar-aware token edit or 1-3 byte edits "
+          "from a hostile set) or truncated at every offset; non-trivial = the schema text has more than one token or an error object was rendered; distinct by the role tuple"),
+    assumptions=["API-legal call order (rules before load, types before compile)"],
+    jobs=[job("mutations", "^TestMutatedInputs$", (4, 16), (1500, 20000), (900, 3000)),
+          job("truncations", "^TestTruncations$", (4, 16), (60, 1500), (900, 3000)),
+          job("table", "^TestErrorTable$", (1, 1), (1, 1), (300, 600)),
+          job("fuzz", "", (0, 0), (0, 0), (0, 0), fuzz="FuzzSchemaAPI", fuzztime=120, tiers=("thorough",))],
+)
 
 _UNBUILT = "check under construction in this session (see DESIGN.md section 5 for the planned design)"
 NOT_APPLICABLE = [dict(property_id="C%02d" % i, reason=_UNBUILT) for i in range(1, 20) if "C%02d" % i not in PROPS]
